@@ -429,7 +429,8 @@ def run_case(rng, tier, res):
             if m.toggle:
                 res.bin("discard_at_toggle1")
             yield from s.op_discard(k, rng.choice([1, 1, 3, 12]))
-            m.discard_situation = situation
+            if getattr(m, "discard_situation", None) != "awaiting_ack":     # (a hazard not yet observed stays the explanation)
+                m.discard_situation = situation
         yield from s.host.idle(rng.randint(3, 60))
         yield from do_in(k, "ack" if rng.random() < 0.8 else None)
 
